@@ -207,6 +207,28 @@ def c05_b(ctx: Ctx):
              and ctx.fold(n.ast.value, rem) is None]
     clears = {n.id for n in cfg.stmt_nodes() for sub in _own(n.ast) for c in walk_no_nested(sub)
               if isinstance(c, ast.Call) and canon(c.func) in ("self._document.clear", "self.document.clear")}
+    # document operations of Job are never executed with synchronisation suspended: under _suspend_sync a clear() / reset() / update() changes only the
+    # in-memory copy - neither the file nor the entry in the global buffer learns about it
+    pmr = ctx.parents(rem)
+    for fq in ("signac.job:Job.remove", "signac.job:Job.clear", "signac.job:Job.reset", "signac.job:Job.document.setter", "signac.job:Job.move"):
+        g = ctx.prog.funcs.get(fq)
+        if g is None:
+            continue
+        pg = ctx.parents(g)
+        for c in [x for x in body_nodes(g) if isinstance(x, ast.Call) and isinstance(x.func, ast.Attribute) and x.func.attr in ("clear", "reset", "update")
+                  and ("document" in canon(x.func.value) or "_document" in canon(x.func.value))]:
+            cur = pg.get(id(c))
+            sus = None
+            while cur is not None:
+                if isinstance(cur, (ast.With, ast.AsyncWith)) and any("_suspend_sync" in canon(it.context_expr) for it in cur.items):
+                    sus = cur
+                cur = pg.get(id(cur))
+            k = f"{fq}|doc-op-synced|{c.func.attr}"
+            if sus is not None:
+                out.append(ctx.viol(R, g, c, f"{canon(c)[:40]} runs inside `with {canon(sus.items[0].context_expr)}`: with synchronisation suspended only the in-memory copy is changed, the "
+                                    "document's entry in the global buffer keeps the old keys, so inside signac.buffered() a later write brings the removed keys back and flushes them", construct=k))
+            else:
+                out.append(ctx.ok(R, g, c, f"{canon(c)[:40]} is a synchronised document operation", construct=k))
     for d in drops:
         w = cfg.must_pass_before(d.id, clears, kinds="n")
         if w is None and clears:
